@@ -29,7 +29,7 @@ type cfg struct {
 	NMsgs        int
 	SwitchPm     int   // probability of re-drawing the group for a message
 	HbPm         int   // link heartbeats
-	WEv          []int // weights: steady, termbump, gap, sync, arbitrary, foreign
+	WEv          []int // weights: steady, termbump, gap, sync, arbitrary, foreign, recombine
 	ZeroEntPm    int   // MsgApp without entries (commit update / probe)
 	SameStart    bool  // all groups start at the same (term,index)
 	SizeProf     int   // 0 small only, 1 mixed, 2 boundary/big heavy
@@ -55,6 +55,9 @@ func drawCfg(c *core.RunCtx) cfg {
 	if t.Choose(8) == 0 {
 		g.Local, g.Remote = smallU64(t)|1, smallU64(t)|1
 	}
+	if g.Remote == g.Local {
+		g.Remote = g.Local + 1
+	}
 	g.NGroups = pick(t, 2, 1, 3, 4, 6, 2, 3)
 	if th && t.Choose(4) == 0 {
 		g.NGroups = 8 + t.Choose(9)
@@ -72,7 +75,7 @@ func drawCfg(c *core.RunCtx) cfg {
 	}
 	g.SwitchPm = pick(t, 300, 100, 500, 800, 1000, 30)
 	g.HbPm = pick(t, 30, 0, 100, 250)
-	g.WEv = []int{pick(t, 60, 40, 80, 20), pick(t, 6, 2, 15), pick(t, 6, 2, 15), pick(t, 8, 0, 20, 40), pick(t, 6, 0, 20), 0}
+	g.WEv = []int{pick(t, 60, 40, 80, 20), pick(t, 6, 2, 15), pick(t, 6, 2, 15), pick(t, 8, 0, 20, 40), pick(t, 6, 0, 20), 0, pick(t, 6, 0, 15)}
 	g.ZeroEntPm = pick(t, 300, 100, 600, 0)
 	g.SameStart = t.Choose(2) == 0
 	bigPm := 80
@@ -118,6 +121,11 @@ func smallU64(t *core.Tape) uint64 { return uint64(t.U32()) }
 type group struct {
 	from, to  pb.Group
 	term, idx uint64
+	// header fields of this pair's previous message (for "recombine")
+	has                            bool
+	pTerm, pLogTerm, pIndex, pLast uint64
+	pCommit                        uint64
+	pN                             int
 }
 
 type gen struct {
@@ -580,7 +588,10 @@ func (g *gen) nextAppend() sent {
 	}
 	m := pb.Message{Type: pb.MsgApp, From: gr.from.RaftReplicaId, To: gr.to.RaftReplicaId, FromGroup: gr.from, ToGroup: gr.to}
 	ev := t.Weighted(g.cfg.WEv)
-	evName := [...]string{"steady", "termbump", "gap", "sync", "arbitrary", "foreign"}[ev]
+	evName := [...]string{"steady", "termbump", "gap", "sync", "arbitrary", "foreign", "recombine"}[ev]
+	if ev == 6 && !gr.has {
+		ev = 0
+	}
 	switch ev {
 	case 1: // a new leader term: the previous entry is of the old term
 		old := gr.term
@@ -617,6 +628,12 @@ func (g *gen) nextAppend() sent {
 			m.LogTerm = g.u64()
 		}
 		m.Entries = g.entries(g.entryCount(), m.Term, m.Index, t.Choose(2) == 0)
+	case 6: // header values that a confused codec could mistake for each other:
+		// term and index recombined from this pair's previous message
+		m.Term = []uint64{gr.pLogTerm, gr.pTerm, g.ref.term, gr.pIndex}[t.Choose(4)]
+		m.LogTerm = m.Term
+		m.Index = []uint64{g.ref.index, gr.pIndex, gr.pLast, gr.pIndex + uint64(gr.pN), gr.pCommit, gr.pTerm}[t.Choose(6)]
+		m.Entries = g.entries(g.entryCount(), m.Term, m.Index, false)
 	case 5: // another message type on the append stream, never continuable
 		m = g.freeForm(gi)
 		if m.Type == pb.MsgApp {
@@ -642,7 +659,7 @@ func (g *gen) nextAppend() sent {
 	}
 	// whole-message boundary (the full form and the generic codec switch
 	// buffers on the message's encoded size)
-	if g.cfg.SizeProf == 2 && len(m.Entries) > 0 && len(m.Entries) < 8 && t.Choose(6) == 0 && g.budget > bufSize+4096 {
+	if g.cfg.SizeProf == 2 && len(m.Entries) > 0 && len(m.Entries) < 8 && t.Choose(3) == 0 && g.budget > bufSize+4096 {
 		before := m.Size()
 		target := bufSize + pick(t, 0, 1, -1, -2)
 		if before < target && g.fitMsg(&m, target) {
@@ -657,6 +674,8 @@ func (g *gen) nextAppend() sent {
 	}
 	s := sent{m: m, group: gi, ev: evName, drifted: drift}
 	s.predict = g.track(&s)
+	gr.has = true
+	gr.pTerm, gr.pLogTerm, gr.pIndex, gr.pLast, gr.pCommit, gr.pN = m.Term, m.LogTerm, m.Index, lastIdx(&m), m.Commit, len(m.Entries)
 	return s
 }
 
@@ -852,7 +871,7 @@ func (g *gen) nextGeneric() sent {
 	}
 	gi := t.Choose(len(g.groups))
 	m := g.freeForm(gi)
-	if g.cfg.SizeProf == 2 && t.Choose(6) == 0 && g.budget > bufSize+4096 {
+	if g.cfg.SizeProf == 2 && t.Choose(3) == 0 && g.budget > bufSize+4096 {
 		before := m.Size()
 		target := bufSize + pick(t, -1, 0, -2, 1)
 		if before < target && g.fitMsg(&m, target) {
